@@ -51,13 +51,33 @@ def _cond_nodes(cfg):
     return sorted(cfg.nodes_of_kind("cond"))
 
 
+def _test(cfg, n):
+    """The test a cond node decides.  `flag = <boolean expression>; if flag:` / `if not flag:` is the same decision as `if <boolean expression>:`: a bare local with one
+    reaching definition that is a comparison / boolean combination / call is replaced by that expression (the CFG has already peeled the `not`)."""
+    t = cfg.ast_of(n)
+    if isinstance(t, ast.Name):
+        try:
+            defs = cfg.defs_reaching(t, t.id)
+        except Exception:
+            return t
+        if len(defs) == 1:
+            st = cfg.ast_of(defs[0])
+            if isinstance(st, ast.Assign) and len(st.targets) == 1 and isinstance(st.targets[0], ast.Name) and isinstance(st.value, (ast.BoolOp, ast.Compare, ast.UnaryOp, ast.Call)):
+                return st.value
+    return t
+
+
+def _orderings_in(test):
+    return [c for c in ast.walk(test) if _ordering(c)]
+
+
 def _relevant_conds(cfg, texts):
     """cond nodes whose test mentions one of the operand texts"""
-    return [n for n in _cond_nodes(cfg) if mentions_text(cfg.ast_of(n)) & set(texts)]
+    return [n for n in _cond_nodes(cfg) if mentions_text(_test(cfg, n)) & set(texts)]
 
 
 def _guard_text(cfg, conds):
-    return " ; ".join(short(cfg.ast_of(n), 40) for n in conds[:4])
+    return " ; ".join(short(_test(cfg, n), 40) for n in conds[:4])
 
 
 def _start_for(cfg, targets, texts):
@@ -128,8 +148,7 @@ def selection_sites(eng):
         raise AnalysisError("get_final_results: cannot tell which return hands out the saved slot")
     inc = None
     for n in _cond_nodes(cfg):
-        t = cfg.ast_of(n)
-        if _ordering(t):
+        for t in _orderings_in(_test(cfg, n)):
             for side in (t.left, t.comparators[0]):
                 if ekey(side) != slot_txt and not isinstance(side, ast.Constant) and slot_txt in (ekey(t.left), ekey(t.comparators[0])):
                     inc = ekey(side)
@@ -152,8 +171,7 @@ def selection_sites(eng):
             continue
         ocs = []
         for n in _cond_nodes(cfg):
-            t = cfg.ast_of(n)
-            if _ordering(t):
+            for t in _orderings_in(_test(cfg, n)):
                 a, b = ekey(t.left), ekey(t.comparators[0])
                 if "objopt" in b or "kopt" in b:
                     ocs.append((n, a, b))
@@ -171,14 +189,14 @@ def selection_sites(eng):
     solve = eng.fn("solver.solve")
     cfg = eng.cfg(solve)
     merge = None
-    cond_texts = [(n, mentions_text(cfg.ast_of(n))) for n in _cond_nodes(cfg)]
+    cond_texts = [(n, mentions_text(_test(cfg, n))) for n in _cond_nodes(cfg)]
     for n, d in cfg.g.nodes(data=True):
         st = d["ast"]
         if d["kind"] == "stmt" and isinstance(st, ast.Assign) and isinstance(st.targets[0], (ast.Tuple, ast.List)) and isinstance(st.value, ast.Tuple):
             names = assigned_names(st.targets[0])
             vals = [ekey(v) for v in st.value.elts]
             for nme, val in zip(names, vals):
-                if any(nme in tx and val in tx and _ordering(cfg.ast_of(c)) for (c, tx) in cond_texts):
+                if any(nme in tx and val in tx and _orderings_in(_test(cfg, c)) for (c, tx) in cond_texts):
                     merge = (n, nme, val)
     if merge is None:
         raise AnalysisError("cannot find the hard-restart merge assignment in solve")
@@ -212,7 +230,7 @@ def _walk(cfg, start, targets, env):
         known = None
         if cfg.kind(n) == "cond":
             try:
-                known = bool(od.evaluate(cfg.ast_of(n), env))
+                known = bool(od.evaluate(_test(cfg, n), env))
             except od.Raises:
                 return "raise"
             except AnalysisError:
